@@ -22,7 +22,7 @@ EXPLANATION = (
     'inside the exception wrapper; (g) the sent-futures handed to the application are settled by the close sequence '
     '(both queues drained) and by the sender on every edge out of the write. Not decided: behaviour per byte offset '
     '(all cut points funnel into the three receiver exits) and timing.')
-EXPLANATION_ADDED = ("(h) the reconnect listener's exits fail the registered streams; (i) a cancellation delivered inside the sender or the keepalive loops ends the task; wrap_transport_exception really raises RSocketTransportError; _fail_unsent_frames drains both queues (only while non-empty, until empty) and fails every pending sent-future; close() stops the tasks and then closes an obtained transport; the loop's isinstance dispatch agrees with the handler roles derived from behaviour; (j) close() of a load-balancer strategy closes every member of the pool requests are routed over, with one member's failing close() isolated from the others (gather with return_exceptions, or a contained await per member), and the load-balancer socket's close()/__aexit__ await it unconditionally; a failing transport.close() is contained in _close_transport; (k) every message (websocket-style) transport puts an exception into its incoming queue on every way its feeder can stop - normal end, error, and cancellation unless the feeder is a task the transport itself owns and cancels from close() - or, for call-back style feeders, from the disconnect call-back, so the receiver runs the close sequence when the peer goes away; (l) the awaitable adapter's close / connect / context-manager methods run the wrapped socket's coroutine (awaited or returned), not merely create it.")
+EXPLANATION_ADDED = ("(h) the reconnect listener's exits fail the registered streams; (i) a cancellation delivered inside the sender or the keepalive loops ends the task; wrap_transport_exception really raises RSocketTransportError; _fail_unsent_frames drains both queues (only while non-empty, until empty) and fails every pending sent-future; close() stops the tasks and then closes an obtained transport; the loop's isinstance dispatch agrees with the handler roles derived from behaviour; (j) close() of a load-balancer strategy closes every member of the pool requests are routed over, with one member's failing close() isolated from the others (gather with return_exceptions, or a contained await per member), and the load-balancer socket's close()/__aexit__ await it unconditionally; a failing transport.close() is contained in _close_transport; (k) every message (websocket-style) transport puts an exception into its incoming queue on every way its feeder can stop - normal end, error, and cancellation unless the feeder is a task the transport itself owns and cancels from close() - or, for call-back style feeders, from the disconnect call-back, so the receiver runs the close sequence when the peer goes away; (l) the awaitable adapter's close / connect / context-manager methods run the wrapped socket's coroutine (awaited or returned), not merely create it; (m) a CancelledError delivered inside an entry point of the library's own request handlers (routing handler, Rx adapters; they are awaited inline by the receiver) propagates out of it.")
 EXPLANATION = EXPLANATION.replace(' Not decided', ' ' + EXPLANATION_ADDED + ' Not decided', 1) \
     if ' Not decided' in EXPLANATION else EXPLANATION + ' ' + EXPLANATION_ADDED
 ASSUMPTIONS = COMMON_ASSUMPTIONS + [
@@ -901,6 +901,42 @@ def rule_l(ctx):
     rule_delegations(ctx, 'C11.l')
 
 
+def rule_m(ctx, rule='C11.m'):
+    """The request handlers the library itself provides (routing handler, Rx handler adapters) are awaited inline by
+    the receiver task: a CancelledError delivered while one of their entry points is suspended - close() cancelling
+    the receiver - must come back out of the entry point.  Swallowed there (a handler that catches BaseException and
+    answers with an error), the receiver goes on reading and close() waits for it for ever."""
+    rep = ctx.report
+    repo = ctx.repo
+    rh = repo.cls('rsocket.request_handler:RequestHandler')
+    n_entries = 0
+    for k in sorted(repo.concrete_subclasses(rh, include_self=False), key=lambda c: c.qualname):
+        if not k.qualname.startswith('rsocket'):
+            continue
+        for name, m in sorted(k.methods.items()):
+            if not m.is_async or name.startswith('_') or rh.lookup(name) is None:
+                continue
+            ps = ctx.paths(m, k, exc=('cancel',), inline_depth=2)
+            n = 0
+            swallowed = None
+            for p in ps:
+                canc = [e for e in p.events if e.kind == 'raise' and e.data.get('implicit') == 'cancel']
+                if not canc:
+                    continue
+                n += 1
+                if p.outcome != 'raise':
+                    swallowed = canc[0]
+            if n == 0:
+                continue  # nothing awaited inside
+            n_entries += 1
+            rep.add(rule, '%s.%s / a cancellation comes back out' % (k.name, name), m, swallowed is None,
+                    'a CancelledError raised at any of its awaits propagates to the receiver (%d paths)' % n
+                    if swallowed is None else
+                    'a CancelledError delivered at line %s is caught inside and the entry point returns normally: '
+                    'the cancelled receiver goes on, close() hangs' % swallowed.line)
+    rep.require(rule, 'suspending entry points of library request handlers', n_entries, 15)
+
+
 def rule_plumbing(ctx):
     from . import plumbing
     plumbing.rule_fail_unsent(ctx, 'C11.g')
@@ -909,4 +945,4 @@ def rule_plumbing(ctx):
 
 
 RULES = [('C11.a', rule_a), ('C11.b', rule_b), ('C11.b', rule_b2), ('C11.c', rule_c), ('C11.d', rule_d), ('C11.e', rule_e),
-         ('C11.f', rule_f), ('C11.g', rule_g), ('C11.h', rule_h), ('C11.i', rule_i), ('C11.f', rule_wrap), ('C11.g+C11.e', rule_plumbing), ('C11.j', rule_group_close), ('C11.k', rule_k), ('C11.l', rule_l)]
+         ('C11.f', rule_f), ('C11.g', rule_g), ('C11.h', rule_h), ('C11.i', rule_i), ('C11.f', rule_wrap), ('C11.g+C11.e', rule_plumbing), ('C11.j', rule_group_close), ('C11.k', rule_k), ('C11.l', rule_l), ('C11.m', rule_m)]
